@@ -54,6 +54,15 @@ def main(tier):
         pairs = [b for b in behs if len(b["muts"]) >= 2]
         behs = rq.prints["REPLAY"] + pairs
         pairs_from = len(rq.prints["REPLAY"])
+    if tier == "quick":
+        # a slice of the pair grammar that the quick tier can afford: a truncation combined with a compression-footer
+        # mutation (the pair that exposed D24: an announced block size is only acted upon when the index is out of reach)
+        rp = tlc("MCFaultGrammar", "FaultGrammar.thorough.cfg", "c08-fgp", workers=1, timeout=3000, heap="12g")
+        ev["tlc"].append(dict(module="FaultGrammar", cfg="FaultGrammar.thorough.cfg (slice)", generated=rp.generated, distinct=rp.distinct, violation=rp.violation))
+        slice_ = [b for b in rp.prints["REPLAY"] if len(b["muts"]) == 2 and {m["f"] for m in b["muts"]} & {"truncate"}
+                  and any(m["f"].startswith("cfoot") for m in b["muts"])]
+        behs = behs + slice_
+        pairs_from = len(behs)
     res, scens = scenarios_from_writer("Writer.scen.cfg", "c08-scen")
     rich = [s for s in scens if len(s["files"]) >= 2 and any(len(i["offs"]) >= 2 for i in s["hid"]["info"])]
     # ... one archive with an empty file, and (compression) one whose plaintext stream ends exactly on a block edge
